@@ -462,3 +462,82 @@ def norm_module(m, side):
         pl["effect"] = norm(pl["effect"], side)
         d["payload"] = pl
     return d
+
+
+# ------------------------------------------------------------------ further API use after the description has been built
+def api_noise(p, rng, history, max_module=0xFFFF):
+    """Random additional public-API calls on a built project (the state they reach is captured by the snapshot
+    taken afterwards): cloned modules attached, MultiCtl.macro bundles, bulk pattern edits, Note.mod, list
+    connects, layout.  Returns the number of calls made."""
+    import rv.api as api
+    from rv.note import NOTECMD
+    from rv.modules.multictl import MultiCtl
+    n = 0
+    for _ in range(rng.randint(1, 5)):
+        live = [m for m in p.modules if m is not None and m.index != 0]
+        kind = rng.choice(("clone-attach", "macro", "bulk-fn", "bulk-gen", "note-mod", "list-connect", "layout", "reflect"))
+        try:
+            if kind == "clone-attach" and live:
+                m = rng.choice(live)
+                c = m.clone()
+                if rng.random() < 0.5:
+                    p += c
+                else:
+                    p.attach_module(c)
+                c.x, c.y, c.layer = rng.randint(-1000, 1000), rng.randint(-1000, 1000) | 1, rng.randint(0, 7)
+            elif kind == "macro" and live:
+                # generated MultiCtls carry arbitrary 32-bit mapping windows (legal file content, but outside the
+                # window domain of C20): driving them could legitimately raise, so they are not used as macro targets
+                cands = [m for m in live if not isinstance(m, MultiCtl)]
+                picks = rng.sample(cands, min(len(cands), rng.randint(1, 3)))
+                pairs = []
+                for m in picks:
+                    names = [k for k, c in type(m).controllers.items() if c.attached(m) and not k.startswith("user_defined")]
+                    if names:
+                        pairs.append((m, rng.choice(names)))
+                if pairs:
+                    MultiCtl.macro(p, *pairs, name="macro", x=rng.randint(-500, 500), y=rng.randint(-500, 500) | 1,
+                                   initial=rng.choice([None, 0, 32768, rng.randint(0, 32768)]))
+            elif kind in ("bulk-fn", "bulk-gen"):
+                pats = [q for q in p.patterns if isinstance(q, api.Pattern)]
+                if pats:
+                    q = rng.choice(pats)
+                    def mk():
+                        return api.Note(note=NOTECMD(rng.choice([0, 1, 61, 120, 128, 140])), vel=rng.randint(0, 129),
+                                        module=rng.randint(0, max_module), ctl=rng.randrange(65536), val=rng.randrange(65536))
+                    if kind == "bulk-fn":
+                        q.set_via_fn(lambda pat, ln, tr: mk())
+                    else:
+                        cells = [(ln, tr) for ln in range(q.lines) for tr in range(q.tracks)]
+                        rng.shuffle(cells)
+                        cells = cells[:rng.randint(0, min(len(cells), 12))]
+                        q.set_via_gen(lambda pat, new: ((ln, tr, mk()) for ln, tr in cells))
+            elif kind == "note-mod":
+                pats = [q for q in p.patterns if isinstance(q, api.Pattern)]
+                if pats and live:
+                    q = rng.choice(pats)
+                    q.data[rng.randrange(q.lines)][rng.randrange(q.tracks)].mod = rng.choice(live)
+            elif kind == "list-connect" and len(live) >= 2:
+                a = rng.sample(live, rng.randint(1, min(3, len(live))))
+                b = rng.sample(live + [p.output], rng.randint(1, min(3, len(live))))
+                if rng.random() < 0.5:
+                    p.connect(a, [~x if rng.random() < 0.3 else x for x in b])
+                else:
+                    a[0] >> b
+            elif kind == "layout":
+                if any(m is not None and m.in_links for m in p.modules):
+                    p.layout(seed=rng.randrange(1000))
+            elif kind == "reflect":
+                mcs = [m for m in live if isinstance(m, MultiCtl) and m.out_links]
+                if mcs:
+                    mc = rng.choice(mcs)
+                    try:
+                        mc.reflect(0, propagate=False)
+                    except (IndexError, ZeroDivisionError, TypeError):
+                        pass
+        except api.m.MultiCtl.__mro__[0].__class__ if False else Exception as e:  # noqa
+            history.append(("noise-raised", kind, repr(e)[:80]))
+            raise
+        history.append(("noise", kind))
+        n += 1
+    return n
